@@ -117,6 +117,18 @@ class FunctionNode(ConfigDict):
         keyword_args = { key: value for key, value in args.items() if isinstance(key, str) }
         assert len(positional_args) + len(keyword_args) == len(args)
 
+        idx = 0
+        unpack = []
+        while True:
+            if idx not in positional_args:
+                break
+            unpack.append(positional_args.pop(idx))
+            idx += 1
+
+        if not positional_args:
+            # positions 0..n-1 are passed as they are, no names needed (the signature of many builtins cannot be inspected)
+            return unpack, {}, keyword_args
+
         import inspect
         sig = inspect.signature(func)
         params = list(sig.parameters.values())
@@ -125,14 +137,6 @@ class FunctionNode(ConfigDict):
             if p.kind not in (inspect.Parameter.POSITIONAL_ONLY, inspect.Parameter.POSITIONAL_OR_KEYWORD):
                 break
             idx_to_name.append(p.name)
-
-        idx = 0
-        unpack = []
-        while True:
-            if idx not in positional_args:
-                break
-            unpack.append(positional_args.pop(idx))
-            idx += 1
 
         kw_positional_args = {}
         for idx, value in positional_args.items():
